@@ -35,6 +35,11 @@ def mc_module(name, plan):
         return f"[t \\in 1..{n} |-> CASE " + " [] ".join(parts) + "]"
     L.append("MCReads == [o \\in MCOps |-> CASE " + " [] ".join(f'o = "{o}" -> ' + per_task(plan["reads"], o, False) for o in ops) + "]")
     L.append("MCWrites == [o \\in MCOps |-> CASE " + " [] ".join(f'o = "{o}" -> ' + per_task(plan["writes"], o, True) for o in ops) + "]")
+    nkeys = {a: len({k for o in plan["writes"] for t in plan["writes"][o] for k in plan["writes"][o][t] if k[0] == a}) for a in plan["arrays"]}
+    cps = {a: plan.get("cps", {}).get(a, 1) for a in plan["arrays"]}
+    nch = {a: plan.get("nchunks", {}).get(a, nkeys[a] * cps[a]) for a in plan["arrays"]}
+    L.append("MCNChunks == [a \\in MCArrays |-> CASE " + " [] ".join(f'a = "{a}" -> {n}' for a, n in nch.items()) + "]")
+    L.append("MCCPS == [a \\in MCArrays |-> CASE " + " [] ".join(f'a = "{a}" -> {n}' for a, n in cps.items()) + "]")
     L.append("====")
     return "\n".join(L) + "\n"
 
@@ -42,7 +47,8 @@ def mc_module(name, plan):
 def constants(sched="seq", maxexec=1, maxdup=2, maycrash=False, createfirst=True, deprule="settled", createmode="a", resumerule="all"):
     return dict(Ops="<-MCOps", Create='"create"', Arrays="<-MCArrays", Lazy="<-MCLazy", Prod="<-MCProd", NT="<-MCNT",
                 Reads="<-MCReads", Writes="<-MCWrites", Sched=sched, MaxExec=maxexec, MaxDup=maxdup, MayCrash=maycrash,
-                CreateFirst=createfirst, DepRule=deprule, CreateMode=createmode, ResumeRule=resumerule)
+                CreateFirst=createfirst, DepRule=deprule, CreateMode=createmode, ResumeRule=resumerule,
+                NChunks="<-MCNChunks", CPS="<-MCCPS")
 
 
 def chain(lazy_target=True):
@@ -79,3 +85,12 @@ def rmw():
     # misaligned layout: both tasks of P write parts of chunk (A,1)
     return dict(ops=[("create", 1), ("P", 2)], arrays={"A": "P"}, lazy=["A"], reads={},
                 writes={"P": {1: [("A", 1)], 2: [("A", 1)]}})
+
+
+def sharded():
+    # P stores into T, a SHARDED array with a ragged edge: 3 stored keys (shards) of 2 chunks each, 4 declared chunks
+    # (two stored shards already count 4 chunks); S then reads T
+    return dict(ops=[("create", 2), ("P", 3), ("S", 1)], arrays={"T": "P", "D": "S"}, lazy=["T", "D"],
+                reads={"S": {1: [("T", 1), ("T", 2), ("T", 3)]}},
+                writes={"P": {1: [("T", 1)], 2: [("T", 2)], 3: [("T", 3)]}, "S": {1: [("D", 1)]}},
+                cps={"T": 2}, nchunks={"T": 4})
